@@ -6,7 +6,7 @@ from vlib import Work, run_vh, run_tlc, tlc_must_pass, read_ndjson, MachineryErr
 
 def run(rep, tier, seed):
     rep.assumptions += ["accepted spellings and expected callbacks are spec/StCmd.tla; names/values come from its tables (CJK, latin, namespaced, quoted names; ints, floats, d1 dice, parenthesised expressions)",
-                        "a computed edit, or a name that begins like a dice operator, written after a parenthesised value without a comma is taken into that value (known finding KF-C18-1): such lists are generated, marked `runon`, and a mismatch on them is reported under that finding"]
+                        "lists in which a computed edit, or a name that begins like a dice operator, follows a parenthesised value without a comma are generated and marked `runon` (they used to be taken into that value; repaired in the repository)"]
     with Work("c18") as w:
         pre = w.path("st")
         r = tlc_must_pass(run_tlc(w, "StCmdGen", "StCmdGen_%s.cfg" % tier, env={"OUT": pre}, workers=1, timeout=3000, heap="16g"), "StCmdGen")
